@@ -49,7 +49,8 @@ pub const F_GETMUT_SOME: u32 = 8;
 pub const F_CYCLE_STORED: u32 = 9;
 pub const F_WEAK_IN_VALUE_DROPPED: u32 = 10;
 pub const F_INC_DEC: u32 = 11;
-pub const NAMES: [&str; 12] = [
+pub const F_OVER_ALIGNED: u32 = 12;
+pub const NAMES: [&str; 13] = [
     "value_with_nested_handles_destroyed",
     "weak_observed_after_death",
     "try_unwrap_ok",
@@ -62,11 +63,20 @@ pub const NAMES: [&str; 12] = [
     "handle_stored_in_value",
     "weak_inside_destroyed_value",
     "inc_dec_strong_count",
+    "over_aligned_payload",
 ];
+
+/// Alignment filler of the over-aligned payload variant.
+#[repr(align(64))]
+#[derive(Default)]
+pub struct Align64;
 
 pub trait Fam: Sized + 'static {
     type R;
     type W;
+    /// `()` or `Align64`: the payload's alignment decides where `value` sits
+    /// in the allocation (raw-pointer round trips depend on it)
+    type Al: Default;
     fn new(v: Val<Self>) -> Self::R;
     fn from_t(v: Val<Self>) -> Self::R;
     fn from_box(v: Box<Val<Self>>) -> Self::R;
@@ -105,6 +115,7 @@ pub trait Fam: Sized + 'static {
 }
 
 pub struct Val<F: Fam> {
+    pub al: F::Al,
     pub id: u32,
     pub strong: RefCell<Vec<F::R>>,
     pub weak: RefCell<Vec<F::W>>,
@@ -112,7 +123,7 @@ pub struct Val<F: Fam> {
 
 impl<F: Fam> Val<F> {
     fn fresh() -> Self {
-        Val { id: next_id(), strong: RefCell::new(vec![]), weak: RefCell::new(vec![]) }
+        Val { al: F::Al::default(), id: next_id(), strong: RefCell::new(vec![]), weak: RefCell::new(vec![]) }
     }
 }
 
@@ -181,11 +192,12 @@ impl<F: Fam> fmt::Debug for Val<F> {
 }
 
 macro_rules! impl_fam {
-    ($name:ident, $rc:ident, $weak:ident, $path:path) => {
+    ($name:ident, $rc:ident, $weak:ident, $al:ty) => {
         pub struct $name;
         impl Fam for $name {
             type R = $rc<Val<$name>>;
             type W = $weak<Val<$name>>;
+            type Al = $al;
             fn new(v: Val<Self>) -> Self::R {
                 $rc::new(v)
             }
@@ -318,15 +330,17 @@ macro_rules! impl_fam {
 mod cx {
     use super::*;
     use cactusref::{Rc, Weak};
-    impl_fam!(Cx, Rc, Weak, cactusref);
+    impl_fam!(Cx, Rc, Weak, ());
+    impl_fam!(CxA, Rc, Weak, Align64);
 }
 mod sd {
     use super::*;
     use std::rc::{Rc, Weak};
-    impl_fam!(Sd, Rc, Weak, std::rc);
+    impl_fam!(Sd, Rc, Weak, ());
+    impl_fam!(SdA, Rc, Weak, Align64);
 }
-pub use cx::Cx;
-pub use sd::Sd;
+pub use cx::{Cx, CxA};
+pub use sd::{Sd, SdA};
 
 #[derive(Clone, Debug, PartialEq, Eq, Serialize, Deserialize)]
 pub enum POp {
@@ -366,6 +380,10 @@ pub enum POp {
 #[derive(Clone, Debug, PartialEq, Eq, Serialize, Deserialize)]
 pub struct Prog {
     pub ops: Vec<POp>,
+    /// payload type aligned to 64 bytes (offset of the value inside the
+    /// allocation differs from the header size)
+    #[serde(default)]
+    pub over_aligned: bool,
 }
 
 struct State<F: Fam> {
@@ -703,16 +721,16 @@ impl Kind for ProgKind {
     type Case = Prog;
     fn strategy(_id: &str, tier: Tier, _variant: u64) -> BoxedStrategy<Prog> {
         let n = if tier == Tier::Thorough { 140 } else { 80 };
-        vec(pop_strategy(), 1..n).prop_map(|ops| Prog { ops }).boxed()
+        (vec(pop_strategy(), 1..n), 0u8..4).prop_map(|(ops, a)| Prog { ops, over_aligned: a == 0 }).boxed()
     }
     fn run(_id: &str, _tier: Tier, c: &Prog) -> CaseResult {
         let views = View::Diff.bit() | View::Crash.bit() | View::Abort.bit() | View::LibPanic.bit();
         let mut r = exec::run_forked(views, crate::runner::CASE_TIMEOUT_S, || {
             crate::interp::install_panic_hook();
             FLAGS.with(|f| f.set(0));
-            let a = std::panic::catch_unwind(|| run_prog::<Cx>(c));
-            let fa = FLAGS.with(|f| f.get());
-            let b = std::panic::catch_unwind(|| run_prog::<Sd>(c));
+            let a = std::panic::catch_unwind(|| if c.over_aligned { run_prog::<CxA>(c) } else { run_prog::<Cx>(c) });
+            let fa = FLAGS.with(|f| f.get()) | if c.over_aligned { 1 << F_OVER_ALIGNED } else { 0 };
+            let b = std::panic::catch_unwind(|| if c.over_aligned { run_prog::<SdA>(c) } else { run_prog::<Sd>(c) });
             let sh = exec::shared();
             sh.labels = fa;
             match (a, b) {
@@ -748,7 +766,7 @@ impl Kind for ProgKind {
         r
     }
     fn compact(c: &Prog) -> String {
-        c.ops.iter().map(|o| format!("{:?}", o)).collect::<Vec<_>>().join(" ")
+        format!("{}{}", if c.over_aligned { "[align64] " } else { "" }, c.ops.iter().map(|o| format!("{:?}", o)).collect::<Vec<_>>().join(" "))
     }
     fn sample_ok(c: &Prog) -> bool {
         c.ops.len() <= 45
